@@ -424,7 +424,7 @@ class E1Model:
             return LinkModel(ln["chain"], init, source_eval=evw)
 
         def ev(t, sci=sci, o=o):
-            alts = [(float(o["base"]),)]
+            alts = [(float(o["base"]) + float(src.get("timefn", 0)) * float(t),)]
             pending = None
             for ii in range(len(sc["components"][sci]["inputs"])):
                 l2 = self.links.get((sci, ii))
